@@ -97,6 +97,7 @@ struct RunOut {
   string note;
 };
 extern RunOut *g_out;                    // current run
+extern bool g_light;                     // sanitizer workers in the quick tier: generators avoid the multi-megabyte styles
 extern bool g_thorough;                  // thorough tier: generators use deeper bounds
 // open known findings handed to the worker: ("<prop>.<class>", detail regex).  A violation that matches is recorded
 // in RunOut::known and does not make failed() true, so the rest of the run is still checked.
